@@ -13,6 +13,7 @@
    delivered, again and again); whether the real code registers a waker for every condition that needs a poll is
    outside the model; the delivery abstraction is assumption A-SWARM/A-STREAM + C14. *)
 From BS Require Import Net Net_proofs Net_proofs2 Net_proofs5 Net_proofs7 Net_proofs9 Net_proofs10 Net_proofs11 Net_proofs12 Net_props.
+From BS Require Import Tie_node Tie_client.   (* tie lemmas: a source edit that changes what they extract breaks this file's closure *)
 Open Scope N_scope.
 
 Theorem C02_direct (Sz : N) (Hh : hash_fn) (HSz : 32 <= Sz) (i j : N) (q : qid) (c : cid) n ops :
@@ -100,3 +101,172 @@ Theorem settle_terminates_partial :
 Proof. exact (@Net_props2.settle_terminates_partial). Qed.
 
 Print Assumptions settle_terminates_partial.
+
+(* ---- the fair round terminates (package J, Net_proofs23..28).  An explicit potential `Phi` (a weighted count of the work
+   in the net) is never raised by a schedule step and strictly lowered by every fair round of a net that is not quiet, so the
+   loop of `settle` reaches a quiet net within `Phi s` rounds, for every reachable net — and Net.v's `settle` (concrete fuel
+   `settle_fuel s`) ends quiet whenever `Phi s <= settle_fuel s`, a condition on the START state decidable by computation.
+   `Phi <= settle_fuel` does not hold for every reachable net (Net_props3.J_fuel_not_covered_by_Phi: Phi counts schedule
+   steps, the fuel counts rounds), so the `quietb` hypotheses of C02_direct etc. stay, checked on the result. *)
+From BS Require Import Net Net_proofs Net_proofs2 Net_proofs5 Net_proofs6 Net_proofs7 Net_proofs9 Net_props
+  Net_proofs23 Net_proofs24 Net_proofs27 Net_proofs28 Net_props3.
+From Coq Require Import ZArith Lia.
+Open Scope N_scope.
+
+Theorem J_reachable_live :
+  forall (Sz : N) (Hh : hash_fn),
+  32 <= Sz ->
+  forall (n : nat) (ops : list nop),
+  Forall (nop_good Sz Hh) ops -> Forall (nop_wf Sz) ops -> net_live (fst (nrun Sz Hh (net_init n) ops)).
+Proof. exact (@Net_props3.J_reachable_live). Qed.
+
+Theorem J_step_monotone :
+  forall (Sz : N) (Hh : hash_fn),
+  32 <= Sz ->
+  forall (n : nat) (ops : list nop) (o : nop),
+  Forall (nop_good Sz Hh) ops ->
+  Forall (nop_wf Sz) ops ->
+  sched o -> let s := fst (nrun Sz Hh (net_init n) ops) in (Phi (fst (nstep Sz Hh s o)) <= Phi s)%nat.
+Proof. exact (@Net_props3.J_step_monotone). Qed.
+
+Theorem J_round_decreases :
+  forall (Sz : N) (Hh : hash_fn),
+  32 <= Sz ->
+  forall (n : nat) (ops : list nop),
+  Forall (nop_good Sz Hh) ops ->
+  Forall (nop_wf Sz) ops ->
+  let s := fst (nrun Sz Hh (net_init n) ops) in quietb s = false -> (Phi (fst (round Sz Hh s)) < Phi s)%nat.
+Proof. exact (@Net_props3.J_round_decreases). Qed.
+
+Theorem settle_loop_terminates :
+  forall (Sz : N) (Hh : hash_fn),
+  32 <= Sz ->
+  forall (n : nat) (ops : list nop) (k : nat),
+  Forall (nop_good Sz Hh) ops ->
+  Forall (nop_wf Sz) ops ->
+  let s := fst (nrun Sz Hh (net_init n) ops) in
+  (Phi s <= k)%nat -> quietb (fst (settle_loop Sz Hh k s)) = true.
+Proof. exact (@Net_props3.settle_loop_terminates). Qed.
+
+Theorem settle_terminates_partial2 :
+  forall (Sz : N) (Hh : hash_fn),
+  32 <= Sz ->
+  forall (n : nat) (ops : list nop),
+  Forall (nop_good Sz Hh) ops ->
+  Forall (nop_wf Sz) ops ->
+  let s := fst (nrun Sz Hh (net_init n) ops) in
+  exists k : nat, (k <= Phi s)%nat /\ quietb (fst (settle_loop Sz Hh k s)) = true.
+Proof. exact (@Net_props3.settle_terminates_partial2). Qed.
+
+Theorem settle_terminates_covered :
+  forall (Sz : N) (Hh : hash_fn),
+  32 <= Sz ->
+  forall (n : nat) (ops : list nop),
+  Forall (nop_good Sz Hh) ops ->
+  Forall (nop_wf Sz) ops ->
+  let s := fst (nrun Sz Hh (net_init n) ops) in
+  (Phi s <= settle_fuel s)%nat -> quietb (fst (settle Sz Hh s)) = true.
+Proof. exact (@Net_props3.settle_terminates_covered). Qed.
+
+Theorem refresh_terminates_covered :
+  forall (Sz : N) (Hh : hash_fn),
+  32 <= Sz ->
+  forall (n : nat) (ops : list nop) (ms : N),
+  Forall (nop_good Sz Hh) ops ->
+  Forall (nop_wf Sz) ops ->
+  let s := advance Sz Hh ms (fst (nrun Sz Hh (net_init n) ops)) in
+  (Phi s <= settle_fuel s)%nat -> quietb (fst (settle Sz Hh s)) = true.
+Proof. exact (@Net_props3.refresh_terminates_covered). Qed.
+
+Print Assumptions J_reachable_live.
+Print Assumptions J_step_monotone.
+Print Assumptions J_round_decreases.
+Print Assumptions settle_loop_terminates.
+Print Assumptions settle_terminates_partial2.
+Print Assumptions settle_terminates_covered.
+Print Assumptions refresh_terminates_covered.
+
+(* ---- UNCONDITIONAL forms (package J, Net_proofs32): with the fair round run on the proved-sufficient fuel
+   (`settle_phi s := settle_loop (Phi s) s`, `refresh_phi` = advance 30 s then settle_phi) the hypotheses "the round ended
+   quiet" disappear: settle_phi / refresh_phi always end quiet on reachable nets, and C02_direct / C02_multi_hop hold for them
+   with no fairness side condition left (only: put blocks hash to their CID, asked CIDs well-formed, wantlist <= 1024).
+   Whenever Net.v's `settle` (concrete fuel) ends quiet it IS settle_phi (settle_quiet_agrees), so the statements above
+   are instances. *)
+From BS Require Import Net Net_proofs Net_proofs2 Net_proofs5 Net_proofs6 Net_proofs7 Net_proofs9 Net_proofs10 Net_props Net_props2
+  Net_proofs23 Net_proofs24 Net_proofs27 Net_proofs28 Net_proofs32 Server Server_inv Net_props3.
+From Coq Require Import ZArith Lia.
+Open Scope N_scope.
+
+Theorem settle_phi_quiet :
+  forall (Sz : N) (Hh : hash_fn),
+  32 <= Sz ->
+  forall (n : nat) (ops : list nop),
+  Forall (nop_good Sz Hh) ops ->
+  Forall (nop_wf Sz) ops ->
+  let s := fst (nrun Sz Hh (net_init n) ops) in
+  let r1 := settle_phi Sz Hh s in
+  let r2 := refresh_phi Sz Hh (fst r1) in quietb (fst r1) = true /\ quietb (fst r2) = true.
+Proof. exact (@Net_props3.settle_phi_quiet). Qed.
+
+Theorem settle_quiet_agrees :
+  forall (Sz : N) (Hh : hash_fn),
+  32 <= Sz ->
+  forall (n : nat) (ops : list nop),
+  Forall (nop_good Sz Hh) ops ->
+  Forall (nop_wf Sz) ops ->
+  let s := fst (nrun Sz Hh (net_init n) ops) in
+  quietb (fst (settle Sz Hh s)) = true -> settle Sz Hh s = settle_phi Sz Hh s.
+Proof. exact (@Net_props3.settle_quiet_agrees). Qed.
+
+Theorem refresh_quiet_agrees :
+  forall (Sz : N) (Hh : hash_fn),
+  32 <= Sz ->
+  forall (n : nat) (ops : list nop),
+  Forall (nop_good Sz Hh) ops ->
+  Forall (nop_wf Sz) ops ->
+  let s := fst (nrun Sz Hh (net_init n) ops) in
+  let r1 := settle Sz Hh s in
+  quietb (fst r1) = true ->
+  quietb (fst (refresh Sz Hh (fst r1))) = true ->
+  r1 = settle_phi Sz Hh s /\ refresh Sz Hh (fst r1) = refresh_phi Sz Hh (fst (settle_phi Sz Hh s)).
+Proof. exact (@Net_props3.refresh_quiet_agrees). Qed.
+
+Theorem C02_direct_phi :
+  forall (Sz : N) (Hh : hash_fn),
+  32 <= Sz ->
+  forall (i j : N) (q : qid) (c : cid) (n : nat) (ops : list nop),
+  Forall (nop_good Sz Hh) ops ->
+  Forall (nop_wf Sz) ops ->
+  let s := fst (nrun Sz Hh (net_init n) ops) in
+  live_query i q c s ->
+  Net.connected s i j = true ->
+  (exists (st : list (cid * bytes)) (d : bytes), store_of s j = Some st /\ store_get st c = SHit d) ->
+  let r1 := settle_phi Sz Hh s in
+  let r2 := refresh_phi Sz Hh (fst r1) in
+  (length (wl_i i (fst r1)) <= 1024)%nat -> answered i q (snd r1 ++ snd r2).
+Proof. exact (@Net_props3.C02_direct_phi). Qed.
+
+Theorem C02_multi_hop_phi :
+  forall (Sz : N) (Hh : hash_fn),
+  32 <= Sz ->
+  forall (i j k : N) (qi qj : qid) (c : cid) (n : nat) (ops : list nop),
+  Forall (nop_good Sz Hh) ops ->
+  Forall (nop_wf Sz) ops ->
+  let s := fst (nrun Sz Hh (net_init n) ops) in
+  live_query i qi c s ->
+  live_query j qj c s ->
+  Net.connected s i j = true ->
+  Net.connected s j k = true ->
+  (exists (st : list (cid * bytes)) (d : bytes), store_of s k = Some st /\ store_get st c = SHit d) ->
+  let r1 := settle_phi Sz Hh s in
+  let r2 := refresh_phi Sz Hh (fst r1) in
+  let r3 := refresh_phi Sz Hh (fst r2) in
+  (length (wl_i j (fst r1)) <= 1024)%nat ->
+  (length (wl_i i (fst r2)) <= 1024)%nat -> answered i qi (snd r1 ++ snd r2 ++ snd r3).
+Proof. exact (@Net_props3.C02_multi_hop_phi). Qed.
+
+Print Assumptions settle_phi_quiet.
+Print Assumptions settle_quiet_agrees.
+Print Assumptions refresh_quiet_agrees.
+Print Assumptions C02_direct_phi.
+Print Assumptions C02_multi_hop_phi.
